@@ -85,7 +85,7 @@ PTR = CalleeSpec(['buf', 'addr'],
 def spec_decompress():
     chunk = ['0 <= kchunk and kchunk < NCHUNKS', 'voff(block) + len(block) == CUT(kchunk + 1)', 'CUT(kchunk) <= voff(block)']
     kinds = {'_buffer': ['none', 'int[:]'], '_partial_len': ['int[:]']}
-    return FnSpec(FILE, 'BloscCompressor.decompress', prop='C14', name='BloscCompressor.decompress',
+    return FnSpec(FILE, 'BloscCompressor.decompress', prop='C14', name='BloscCompressor.decompress', auto_skolem=True,
                   args=dict(self=None, blocks='chunks:ghost_stream', out='int[:]', ghost_n=0),
                   ghosts=ghosts,
                   requires=['forall(j, 0, len(ghost_stream), 0 <= ghost_stream[j] and ghost_stream[j] <= 255)'],
